@@ -165,12 +165,14 @@ func buildValue(rng *vk.Rand, nOps int) *Prog {
 		case w < 30:
 			var names []string
 			opts := readOpts(rng, false, &names)
+			p.noteCombo("Value.Get", names)
 			p.add(gi, "Value.Get", func(g *G) { g.sink += readMsg(v.Get(opts...)) })
 		case w < 75:
 			msg := genTAT(rng)
 			var names []string
 			gp := new(*G)
 			opts := writeOpts(rng, gp, &names)
+			p.noteEach("Value.Set", names)
 			p.add(gi, "Value.Set", func(g *G) {
 				*gp = g
 				res, err := v.Set(msg, opts...)
@@ -180,6 +182,7 @@ func buildValue(rng *vk.Rand, nOps int) *Prog {
 		case w < 88:
 			var names []string
 			opts := readOpts(rng, true, &names)
+			p.noteCombo("Value.Pull", names)
 			k, pace := rng.Intn(6), rng.Intn(4)
 			p.add(gi, "Value.Pull", func(g *G) {
 				consume(g, v.Pull(g.ctx(k), opts...), pace, readValueChange)
@@ -272,6 +275,7 @@ func buildCollection(rng *vk.Rand, nOps int) *Prog {
 		case w < 12:
 			var names []string
 			opts := readOpts(rng, false, &names)
+			p.noteCombo("Collection.Get", names)
 			id := pickID()
 			p.add(gi, "Collection.Get", func(g *G) {
 				m, _ := c.Get(id(g), opts...)
@@ -282,7 +286,9 @@ func buildCollection(rng *vk.Rand, nOps int) *Prog {
 			opts := readOpts(rng, false, &names)
 			if rng.Chance(1, 3) {
 				opts = append(opts, resource.WithInclude(include(rng)))
+				names = append(names, "include")
 			}
+			p.noteCombo("Collection.List", names)
 			p.add(gi, "Collection.List", func(g *G) {
 				for _, m := range c.List(opts...) {
 					g.sink += readMsg(m)
@@ -293,6 +299,7 @@ func buildCollection(rng *vk.Rand, nOps int) *Prog {
 			var names []string
 			gp := new(*G)
 			opts := writeOpts(rng, gp, &names)
+			p.noteEach("Collection.Add", names)
 			gen := rng.Chance(1, 2)
 			id := pickID()
 			if gen {
@@ -317,6 +324,7 @@ func buildCollection(rng *vk.Rand, nOps int) *Prog {
 			var names []string
 			gp := new(*G)
 			opts := writeOpts(rng, gp, &names)
+			p.noteEach("Collection.Update", names)
 			if rng.Bool() {
 				opts = append(opts, resource.WithCreateIfAbsent())
 			}
@@ -371,7 +379,9 @@ func buildCollection(rng *vk.Rand, nOps int) *Prog {
 			opts := readOpts(rng, true, &names)
 			if rng.Chance(1, 3) {
 				opts = append(opts, resource.WithInclude(include(rng)))
+				names = append(names, "include")
 			}
+			p.noteCombo("Collection.Pull", names)
 			k, pace := rng.Intn(6), rng.Intn(4)
 			p.add(gi, "Collection.Pull", func(g *G) {
 				consume(g, c.Pull(g.ctx(k), opts...), pace, readCollectionChange)
@@ -379,6 +389,7 @@ func buildCollection(rng *vk.Rand, nOps int) *Prog {
 		case w < 90:
 			var names []string
 			opts := readOpts(rng, true, &names)
+			p.noteCombo("Collection.PullID", names)
 			k, pace := rng.Intn(6), rng.Intn(4)
 			id := pickID()
 			p.add(gi, "Collection.PullID", func(g *G) {
